@@ -333,7 +333,9 @@ let handle (i : string list) (o : string list) =
           let osecs = List.filter (fun s -> s <> [] && List.hd s = "O") secs in
           let idx = int_of_n (n_of_hex toi) - 1 in
           let md5_announced = (try List.nth (List.nth osecs idx) 4 = "1" with _ -> false) in
-          let guarded = (not altered) || (md5_announced && get "md5" "1" = "1") in
+          (* an FDT instance rewritten in transit (fdtmut=notl: Transfer-Length stripped) is not one the
+             sender emitted: outside C03's quantifier unless the MD5 guards the object (untrusted FDTs are C04's) *)
+          let guarded = ((not altered) && get "fdtmut" "-" <> "notl") || (md5_announced && get "md5" "1" = "1") in
           if not (p_C03_writer ct guarded cs) then pfail := Some (Printf.sprintf "P_C03_writer:%s.%s" toi n)
         | None -> ()
       end) keys;
